@@ -5,9 +5,11 @@ package verifsim
 import (
 	"fmt"
 	"math/rand/v2"
+	"sort"
 	"strings"
 
 	_ "github.com/google/fhir/go/proto/google/fhir/proto/r4/core/resources/bundle_and_contained_resource_go_proto"
+	"google.golang.org/protobuf/encoding/protowire"
 	"google.golang.org/protobuf/proto"
 	"google.golang.org/protobuf/reflect/protoreflect"
 	"google.golang.org/protobuf/reflect/protoregistry"
@@ -184,6 +186,7 @@ func (g *resGen) fillField(m protoreflect.Message, fd protoreflect.FieldDescript
 				if err != nil {
 					panic(err)
 				}
+				g.foreignAny(a)
 				l.Append(protoreflect.ValueOfMessage(a.ProtoReflect()))
 				continue
 			}
@@ -306,6 +309,56 @@ func (g *resGen) fillExtension(m protoreflect.Message, depth int) {
 		v := m.Mutable(d.Fields().ByName("value")).Message()
 		g.fillMessage(v, depth+1)
 	}
+}
+
+// foreignAny sometimes re-encodes an Any the way another producer might have written it: a
+// type URL with another host prefix, and the payload's fields in descending field-number order
+// (equal content, different bytes). Reading such a payload must not rewrite it.
+func (g *resGen) foreignAny(a *anypb.Any) {
+	if g.r.p(0.2) {
+		a.TypeUrl = "fhir.example.org/" + a.TypeUrl[strings.LastIndexByte(a.TypeUrl, '/')+1:]
+	}
+	if g.r.p(0.25) {
+		a.Value = reorderFields(a.Value, 2)
+	}
+}
+
+// reorderFields rewrites a wire-format message with its fields stably sorted by descending field
+// number (entries of one repeated field keep their order), recursing depth levels into
+// length-delimited fields that parse as messages.
+func reorderFields(b []byte, depth int) []byte {
+	type fld struct {
+		num protowire.Number
+		raw []byte
+	}
+	var fs []fld
+	rest := b
+	for len(rest) > 0 {
+		num, typ, n := protowire.ConsumeTag(rest)
+		if n < 0 {
+			return b
+		}
+		m := protowire.ConsumeFieldValue(num, typ, rest[n:])
+		if m < 0 {
+			return b
+		}
+		raw := rest[:n+m]
+		if typ == protowire.BytesType && depth > 0 {
+			if inner, k := protowire.ConsumeBytes(rest[n:]); k >= 0 && len(inner) > 0 {
+				if re := reorderFields(inner, depth-1); len(re) == len(inner) {
+					raw = protowire.AppendBytes(protowire.AppendTag(nil, num, typ), re)
+				}
+			}
+		}
+		fs = append(fs, fld{num, raw})
+		rest = rest[n+m:]
+	}
+	sort.SliceStable(fs, func(i, j int) bool { return fs[i].num > fs[j].num })
+	out := make([]byte, 0, len(b))
+	for _, f := range fs {
+		out = append(out, f.raw...)
+	}
+	return out
 }
 
 func camelToSnake(s string) string {
